@@ -244,7 +244,8 @@ proof fn lemma_perm_wf(dir: VxPath, a: Shards, b: Shards, exists_: Set<VxPath>)
     ensures
         // ... and at exit, on every path (it also holds between any two file-system operations: every mutating primitive
         // requires and re-establishes it, and `remove_file` additionally requires the victim's records to be in another file)
-        /*@C19,C10*/ ci(*final(vx_fs)), final(vx_fs).need@ == old(vx_fs).need@,
+        /*@C19,C10*/ ci(*final(vx_fs)),
+        /*@AUX*/ final(vx_fs).need@ == old(vx_fs).need@,
         res matches Ok(n) ==> {
             &&& cont_ok(shards@, final(finished_shards)@, final(vx_fs).exists@, final(vx_fs).content@)
             // (d) progress of the grouping loop
@@ -266,7 +267,7 @@ proof fn lemma_perm_wf(dir: VxPath, a: Shards, b: Shards, exists_: Set<VxPath>)
                         s == shards@, cur == cur_idx, inputs_wf(dir, s), dir == *session_directory, cur_idx + 1 < ub_idx <= s.len(),
                         cur_idx + 1 <= i <= ub_idx,
                         finished_shards@ == fin0, finished_shard_hashes@ == hs0, vx_fs.exists@ == ex0, vx_fs.content@ == ct0, vx_fs.need@ == need0, need0 == old(vx_fs).need@, ci(*vx_fs), cont_ok(s, fin0, ex0, ct0), vx_fs.removed@ == removed0,
-                        forall|j: int| cur <= j < i ==> recs_of((#[trigger] s[j]).shard_hash).subset_of(data_recs(cur_data@)),
+                        /*@C10,C19*/ forall|j: int| cur <= j < i ==> recs_of((#[trigger] s[j]).shard_hash).subset_of(data_recs(cur_data@)),   // the merged buffer holds the records of every group member read so far
 //@ after `vx_fs.open(&cur_sfi.path)?.read_to_end(&mut cur_data)?;`
                 proof {
                     assert(cur_sfi == s[cur] && vx_fs.exists@.contains(s[cur].path));
@@ -279,7 +280,7 @@ proof fn lemma_perm_wf(dir: VxPath, a: Shards, b: Shards, exists_: Set<VxPath>)
                         assert(alt_data@ =~= Seq::<u8>::empty() + alt_data@);
                         /*@C10*/ assert(data_recs(alt_data@) == recs_of(s[i as int].shard_hash));
                     }
-//@ after `finished_shards.push(cur_sfi.clone());`
+//@ before `} else {`
                 proof {
                     /*@C10*/ assert(finished_shards@.last().shard_hash == s[cur].shard_hash);   // tagged: the shard passed through is the input itself
                     lemma_covered_last(s[cur].shard_hash, finished_shards@);
@@ -291,7 +292,7 @@ proof fn lemma_perm_wf(dir: VxPath, a: Shards, b: Shards, exists_: Set<VxPath>)
                         }
                     }
                 }
-//@ after `finished_shards.push(new_sfi);`
+//@ before `; { let vx_s1 = &shards[cur_idx..ub_idx];`
                 proof {
                     let f = finished_shards@.last();
                     lemma_cont_write(dir, s, fin0, ex0, ct0, f);
@@ -316,7 +317,7 @@ proof fn lemma_perm_wf(dir: VxPath, a: Shards, b: Shards, exists_: Set<VxPath>)
                         s == shards@, cur == cur_idx, cur_idx < ub_idx <= s.len(),
                         vx_s1@ == s.subrange(cur, ub_idx as int), vx_n1 <= vx_s1@.len(),
                         shards_to_remove@.len() == vx_n1,
-                        forall|m: int| 0 <= m < vx_n1 ==> #[trigger] shards_to_remove@[m] == (s[cur + m].shard_hash, s[cur + m].path),
+                        /*@C10,C19*/ forall|m: int| 0 <= m < vx_n1 ==> #[trigger] shards_to_remove@[m] == (s[cur + m].shard_hash, s[cur + m].path),   // only group members are scheduled for removal
 //@ after `< vx_s1.len()`
                     decreases vx_s1@.len() - vx_n1,
 //@ after `while vx_n2 < vx_s2.len()`
@@ -324,9 +325,9 @@ proof fn lemma_perm_wf(dir: VxPath, a: Shards, b: Shards, exists_: Set<VxPath>)
                     s == shards@, cur == cur_idx, dir == *session_directory, inputs_wf(dir, s), vx_s2@ == shards_to_remove@, vx_n2 <= vx_s2@.len(),
                     vstd::std_specs::hash::obeys_key_model::<MerkleHash>(),
                     shards_to_remove@.len() == ub_idx - cur || (shards_to_remove@.len() == 0 && ub_idx == cur + 1 && finished_shard_hashes@.contains(s[cur].shard_hash)),
-                    forall|m: int| 0 <= m < vx_n2 ==> gone_or_returned(#[trigger] s[cur + m], finished_shard_hashes@, vx_fs.exists@),
-                    forall|m: int| 0 <= m < shards_to_remove@.len() ==> #[trigger] shards_to_remove@[m] == (s[cur + m].shard_hash, s[cur + m].path),
-                    mid(dir, s, finished_shards@, finished_shard_hashes@, vx_fs.exists@, vx_fs.removed@, cur, ub_idx as int, removed0),
+                    /*@C10*/ forall|m: int| 0 <= m < vx_n2 ==> gone_or_returned(#[trigger] s[cur + m], finished_shard_hashes@, vx_fs.exists@),
+                    /*@C10,C19*/ forall|m: int| 0 <= m < shards_to_remove@.len() ==> #[trigger] shards_to_remove@[m] == (s[cur + m].shard_hash, s[cur + m].path),
+                    /*@C10,C19*/ mid(dir, s, finished_shards@, finished_shard_hashes@, vx_fs.exists@, vx_fs.removed@, cur, ub_idx as int, removed0),
                     cont_ok(s, finished_shards@, vx_fs.exists@, vx_fs.content@), /*@C19,C10*/ ci(*vx_fs), vx_fs.need@ == need0, need0 == old(vx_fs).need@,
 //@ after `vx_n2 < vx_s2.len()`
                 decreases vx_s2@.len() - vx_n2,
